@@ -7,7 +7,7 @@ import re
 
 from . import mirlib as M
 from . import symex as S
-from .common import BaseModel, run_fn, ret_paths
+from .common import BaseModel, run_fn, ret_paths, variant_of
 
 EPS = ("eps",)
 INLINE = r"Nfa::(set_start_state|set_end_state|end_state|new)$"
@@ -155,6 +155,10 @@ def analyze(ctx, want):
             r = p.end[1]
             if r[0] == "adt" and r[2] in ("Ok", "Err"):
                 return r[2], r[3][0]
+            if r[0] == "app" and re.search(r"Nfa::try_from_ast$", str(r[1])):
+                # the result of the recursive call is returned as it is (tail call): Ok(child nfa) when the child converts,
+                # the child's error otherwise — the same as `let n = recurse?; Ok(n)`
+                return "Ok", ("field", ("downcast", r, "Ok"), "0")
             return "?", r
         return p.end[0], None
 
@@ -384,26 +388,37 @@ def analyze(ctx, want):
                 continue
             ok_child = "item@" in child
             ob2(("C02.c", "C15.c"), "%s:recurses-on-the-current-element" % v.lower(), ok_child, "recursive call on %s" % child, fn.loc())
-            if p.end[0] == "cut":
-                nv = p.locals.get((ex.fid, nfa_local))
+            nxs = [e for e in p.events if e[0] == "call" and re.search(r"Iterator>::next$", e[2])]
+            exhausted_last = bool(nxs) and any(k_[0][0] == "sym" and str(k_[0][1]).startswith("__exhausted__") and v_ == ("bool", True) for k_, v_ in p.heap.items())
+            at_end = p.end[0] == "cut" or (kind == "Ok" and exhausted_last)
+            if at_end:
+                nv = p.locals.get((ex.fid, nfa_local)) if p.end[0] == "cut" else r
                 d = simp(den(nv)) if nv else None
                 first = [(c, o) for c, o in p.conds if c[0] == "binop" and c[1] == "Eq" and ("int", 0) in (c[2], c[3]) and "item@" in S.vstr(c)]
                 CHd = ("sym", child)
                 if v == "Alternation":
-                    if first and first[-1][1] is True:
-                        seen.add("first")
-                        idx_ok = re.search(r"item@bb\d+\.0$", S.vstr(first[-1][0][2])) is not None or re.search(r"item@bb\d+\.0$", S.vstr(first[-1][0][3])) is not None
-                        ob("C02.c", "alternation:first-alternative-seeds-the-nfa", d == CHd and idx_ok, "first alternative (index test %s): nfa = %s" % (S.vstr(first[-1][0]), show(d) if d else None), fn.loc())
-                    elif first:
+                    # the alternatives seen on this path, alternated in order, and nothing else: in particular no ε disjunct
+                    # (folding into the fresh NFA would accept the empty string).  An ε in front stands for "the alternatives
+                    # so far" only on a path that established that this is not the first one (index != 0).
+                    def flat(x):
+                        return flat(x[1]) + flat(x[2]) if x is not None and x[0] == "alt" else [x]
+                    chain = flat(d)
+                    kids = [("sym", S.vstr(x[3][0])) for x in rec]
+                    not_first = bool(first) and first[-1][1] is False
+                    if chain == kids:
+                        seen.add("first" if len(kids) == 1 else "later")
+                        if first:
+                            idx_ok = re.search(r"item@bb\d+\.0$", S.vstr(first[-1][0][2])) is not None or re.search(r"item@bb\d+\.0$", S.vstr(first[-1][0][3])) is not None
+                            ob("C02.c", "alternation:first-alternative-seeds-the-nfa", first[-1][1] is True and idx_ok, "first alternative (index test %s): nfa = %s" % (S.vstr(first[-1][0]), show(d) if d else None), fn.loc())
+                        else:
+                            ob("C02.c", "alternation:first-alternative-seeds-the-nfa", True, "nfa = %s" % (show(d) if d else None), fn.loc())
+                    elif chain == [EPS] + kids and not_first:
                         seen.add("later")
-                        # ε stands for the accumulated alternatives (first iteration view)
-                        ob("C02.c", "alternation:later-alternatives-are-alternated", d == ("alt", EPS, CHd), "later alternative: nfa = %s (acc shown as ε)" % (show(d) if d else None), fn.loc())
+                        ob("C02.c", "alternation:later-alternatives-are-alternated", True, "later alternative: nfa = %s (acc shown as ε)" % (show(d) if d else None), fn.loc())
                     else:
-                        # no index test: every element is folded with alternation() starting from the fresh NFA:
-                        # the result would be ε|a|b (accepts the empty string) unless alternation() special-cases it
                         seen.add("fold")
                         ob("C02.c", "alternation:fold-has-a-proper-seed", False,
-                           "every alternative is folded into the fresh (ε) NFA: nfa = %s — the first alternative must seed the fold" % (show(d) if d else None), fn.loc())
+                           "after the alternatives %s the nfa is %s — it must be exactly their alternation (the first alternative seeds it; folding into the fresh ε NFA adds the empty string)" % ([show(k) for k in kids], show(d) if d else None), fn.loc())
                 else:
                     seen.add("body")
                     ob("C02.c", "concat:elements-are-concatenated", d == CHd, "after one element: nfa = %s (ε·x = x)" % (show(d) if d else None), fn.loc())
